@@ -128,6 +128,11 @@ class Spec:
         # an `Event` built earlier (`evNew`, not a tracing call) and attached now is an event attached now
         if op == "evNew":
             return
+        # the span name is a user value whose conversion uses the tracing API (wild stream: only panics are judged)
+        if op == "localEnterRe":
+            op = "localEnter"
+        elif op == "childLocalRe":
+            op = "childLocal"
         if op == "lAddEventPre":
             op, a = "lAddEvent", a[1:]
         elif op == "addEventPre":
@@ -574,7 +579,8 @@ class Gen:
 
     def op_child_local(self, t):
         v = self.var()
-        self.emit(t, "childLocal %s %s" % (v, hx(self.name())))
+        re = "Re" if self.mode == "wild" and self.r.chance(1, 6) else ""
+        self.emit(t, "childLocal%s %s %s" % (re, v, hx(self.name())))
         return v
 
     def op_with_props(self, t, v):
@@ -630,7 +636,8 @@ class Gen:
 
     def op_local_enter(self, t):
         self.maybe_prebuild(t)
-        self.emit(t, "localEnter %s" % hx(self.name("l")))
+        re = "Re" if self.mode == "wild" and self.r.chance(1, 6) else ""
+        self.emit(t, "localEnter%s %s" % (re, hx(self.name("l"))))
 
     def op_close(self, t):
         self.emit(t, "close")
